@@ -138,11 +138,12 @@ theorem C04_forged_ack_ignored (k : Kcp) (sn ts : U32)
   rw [if_pos h, if_pos h]
   exact ⟨rfl, rfl⟩
 
-/-- a forged `una` can only remove a prefix of `snd_buf` (and `shrink_buf` re-establishes `snd_una`) -/
+/-- a forged `una` can only remove a prefix of `snd_buf` (the segments below `una`, then — `shrink_buf` —
+the head segments already acknowledged one by one; `shrink_buf` re-establishes `snd_una` from the new head) -/
 theorem C04_forged_una_prefix (k : Kcp) (una : U32) :
     ∃ c, c ≤ k.snd_buf.length ∧ (shrinkBuf (parseUna k una).1).snd_buf = k.snd_buf.drop c ∧
       (shrinkBuf (parseUna k una).1).snd_nxt = k.snd_nxt :=
-  ⟨unaCount una k.snd_buf, unaCount_le _ _, shrinkUna_buf k una, shrinkUna_nxt k una⟩
+  ⟨unaDrop una k.snd_buf, unaDrop_le _ _, shrinkUna_buf k una, shrinkUna_nxt k una⟩
 
 /-! ### 5. admission rule -/
 
